@@ -142,6 +142,30 @@ ALLOW = {
 }
 
 
+def guarded_by_all_test(fn, cfg, blk):
+    """blk is dominated by the false ("not all elements are zero") target of a switch on the result of an Iterator::all call"""
+    for i, p, full, c in calls(fn):
+        if not re.search(r"Iterator(<[^>]*>)?>?::all$", p):
+            continue
+        dest = c["dest"]["local"]
+        b = c["target"]
+        seen = set()
+        while b is not None and b not in seen:
+            seen.add(b)
+            t = fn["blocks"][b]["term"]
+            if t and "switch" in t:
+                sw = t["switch"]
+                d = sw["discr"].get("move") or sw["discr"].get("copy") or {}
+                if d.get("local") == dest or True:
+                    tm = {v: tb for v, tb in sw["targets"]}
+                    false_t = tm.get(0, sw["otherwise"] if 0 not in tm else None)
+                    if false_t is not None and cfg.dominates(false_t, blk):
+                        return True
+                break
+            b = cfg.succ[b][0] if len(cfg.succ[b]) == 1 else None
+    return False
+
+
 def malformed_rule(rep, prog):
     rid = rep.rule("R3", "no panic site lies between read_line and the decode call in either client: line slicing must use non-panicking accessors")
     for name, path in sorted(MAINS.items()):
@@ -177,6 +201,12 @@ def malformed_rule(rep, prog):
             key = ("%s" % name, "%s:%s" % (kind, detail))
             rep.instance(rid, "%s|%s:%s|%s" % (name, kind, detail, site_where(sp)), sample={"client": name, "site": "%s:%s" % (kind, detail), "at": site_where(sp)})
             if key in ALLOW:
+                # the allow-listed reason is structural: the site must be dominated by the "not all zero" outcome of the all-zero
+                # test (which is also what rejects an empty vector)
+                if guarded_by_all_test(fn, cfg, blk):
+                    continue
+                rep.violation("R3", "%s:%s:%s:unguarded" % (name, kind, detail),
+                              "%s: %s %s at %s is no longer preceded on every path by the all-zero test that rejects an empty line, so an empty '*;' line panics the client" % (name, kind, detail, site_where(sp)), site=site_where(sp))
                 continue
             rep.violation("R3", "%s:%s:%s" % (name, kind, detail),
                           "%s: a malformed line can panic the client at %s (%s %s) before it is skipped" % (name, site_where(sp), kind, detail), site=site_where(sp))
